@@ -27,6 +27,8 @@ import (
 const (
 	group    = "g18"
 	propName = "p18"
+	// a second property NAME in the same group; keys are group/name/id, so p18/x and q18/x are unrelated keys
+	propName2 = "q18"
 )
 
 var bg = context.Background()
@@ -223,11 +225,11 @@ func (g *fakeGroups) GetGroup(_ context.Context, name string) (*commonv1.Group, 
 }
 
 func (p *fakeProps) GetProperty(_ context.Context, md *commonv1.Metadata) (*databasev1.Property, error) {
-	if md.Group != group || md.Name != propName {
+	if md.Group != group || (md.Name != propName && md.Name != propName2) {
 		return nil, errors.New("no such property")
 	}
 	return &databasev1.Property{
-		Metadata: &commonv1.Metadata{Group: group, Name: propName},
+		Metadata: &commonv1.Metadata{Group: group, Name: md.Name},
 		Tags: []*databasev1.TagSpec{
 			{Name: "a", Type: databasev1.TagType_TAG_TYPE_STRING},
 			{Name: "b", Type: databasev1.TagType_TAG_TYPE_STRING},
